@@ -43,6 +43,11 @@ type Options struct {
 	Announce  bool // configure an announce receiver
 	NoWarmup  bool
 	NoLatest  bool // do not record the warm-up advertisement as latest synced
+	// Prestore copies every chain block into the destination store before the
+	// explored part: syncs then make no block requests (stored blocks are
+	// reported, not requested), which removes blocking points that properties
+	// about notifications and shutdown do not care about.
+	Prestore bool
 	KeyOffset int
 }
 
@@ -78,6 +83,15 @@ func New(e *sched.Exec, o Options) *World {
 			p.ResetLog()
 		}
 		w.ResetHooks()
+	}
+	if o.Prestore {
+		for i, p := range w.Pubs {
+			for _, c := range w.Chains[i].Cids {
+				if b, ok := p.Src.Get(c); ok && !w.Dst.Has(c) {
+					w.Dst.Put(c, b)
+				}
+			}
+		}
 	}
 	// let every goroutine of the warm-up come to rest first (the losing one of
 	// the two concurrent discovery requests is cancelled and its handler
